@@ -84,13 +84,31 @@ type update struct {
 	ret   int64
 	ok    bool
 	err   error
+	// repush: a full update with the text of an earlier full update
+	repush bool
 }
 
 // genUpdate builds the next update against state cur.
-func genUpdate(r *rand.Rand, tg *tagger, cur verState, kind updKind) *update {
+func genUpdate(r *rand.Rand, tg *tagger, cur verState, kind updKind, earlier ...*update) *update {
 	u := &update{kind: kind}
 	switch kind {
 	case updFull:
+		// a configuration centre re-pushing a text it pushed before (possibly after incremental
+		// updates or removals changed the set in between) must install that text again
+		var fulls []*update
+		for _, e := range earlier {
+			if e != nil && e.kind == updFull {
+				fulls = append(fulls, e)
+			}
+		}
+		if len(fulls) > 0 && r.Intn(3) == 0 {
+			e := fulls[len(fulls)-1]
+			if r.Intn(3) == 0 {
+				e = fulls[r.Intn(len(fulls))]
+			}
+			u.text, u.after, u.repush = e.text, e.after, true
+			return u
+		}
 		n := 3 + r.Intn(3)
 		names := append([]string{}, alphabet...)
 		r.Shuffle(len(names), func(i, j int) { names[i], names[j] = names[j], names[i] })
@@ -401,7 +419,14 @@ func runHistory(k *fw.Case) {
 			} else if r.Intn(5) == 0 {
 				kind = updFailing
 			}
-			u := genUpdate(r, tg, cur, kind)
+			var earlier []*update
+			if !multi {
+				earlier = append([]*update{s0}, updLists[ui]...)
+			}
+			u := genUpdate(r, tg, cur, kind, earlier...)
+			if u.repush {
+				k.Count("repushed_full_texts", 1)
+			}
 			if !multi && kind != updFailing {
 				cur = u.after
 			}
